@@ -61,40 +61,15 @@ PIPE_TIMEOUT = 30.0
 
 
 def arrow_of(spec: tuple[Any, ...]) -> Any:
-    import pyarrow as pa
+    from lib.models import typemap
 
-    from lib import tygen
-
-    k = spec[0]
-    if k == "int":
-        return pa.int64()
-    if k == "float":
-        return pa.float64()
-    if k == "str":
-        return pa.string()
-    if k == "bytes":
-        return pa.binary()
-    if k == "bool":
-        return pa.bool_()
-    if k == "arrow":
-        return tygen.ARROW_TYPES[spec[1]][1]
-    if k == "opt":
-        return arrow_of(spec[1])
-    if k in ("list", "set"):
-        return pa.list_(arrow_of(spec[1]))
-    if k == "dict":
-        return pa.map_(arrow_of(spec[1]), arrow_of(spec[2]))
-    if k == "enum":
-        return pa.dictionary(pa.int16(), pa.string())
-    if k == "dc":
-        return pa.binary()  # RPC parameter level: a complete IPC stream in a binary column
-    raise ValueError(spec)
+    return typemap.arrow_of(spec)
 
 
 def declared_schema(params: list[tuple[Any, ...]]) -> Any:
-    import pyarrow as pa
+    from lib.models import typemap
 
-    return pa.schema([pa.field(p[0], arrow_of(p[1]), nullable=(p[1][0] == "opt")) for p in params])
+    return typemap.params_schema(params)
 
 
 def wire_value(spec: tuple[Any, ...], v: Any) -> Any:
